@@ -476,11 +476,34 @@ C03.manifest = {
             "joined by a stored edge (read off get_all_edges alone), each once, with weight adjw = the running minimum of "
             "the stored group (multi-edge) or the weight of the single stored edge; for uniformly real weights adjw is the "
             "true minimum, for uniformly unweighted groups it is NaN. The model is tied to the code per call by the hook "
-            "snapshot of both traversal lists; an independent oracle rebuilds the adjacency from the public edge list.",
-    "note": "Axioms: none. Trusted: Coq kernel; harness + hook verif_snapshot; the Dijkstra/centrality consumers read "
-            "only these lists (checked by C04-C06's own correspondence, not re-proved here). Defect F1 (KeepFirst/KeepLast "
-            "kept the minimum instead of the stored weight) was repaired by a fix: commit; the model is the repaired code.",
-    "technique": "Coq proof: data-structure invariant by induction over histories + correspondence via hook snapshot",
+            "snapshot of both traversal lists; an independent oracle rebuilds the adjacency from the public edge list. "
+            "THE CONSEQUENCE CLAUSE IS PROVED (round 2, Proofs/BrandesWF.v, Proofs/EdgeStoreOnly.v), one theorem per "
+            "algorithm, each quoting that algorithm's end-to-end theorem: for two graphs reached by ANY two histories under "
+            "possibly different GraphSpecs (duplicate policy, multigraph flag, missing-node and self-loop rules) with the "
+            "same directed flag, the same node list and get_all_edges equal up to order, single_source returns on both "
+            "with equal distances (C03_distances_depend_on_edge_store_only: every name reported by both has the same "
+            "distance; without a target the maps have the same keys and distances, with a target the target's entry "
+            "agrees), closeness_centrality and betweenness_centrality return the same keys in the same order with equal "
+            "values, for all heap tie choices (C03_closeness_depends_on_edge_store_only, "
+            "C03_betweenness_depends_on_edge_store_only); the arcs the algorithms traverse (i->j with cost c iff an edge "
+            "is stored between the i-th and j-th node, c = 1 or the minimum stored weight) are a function of node list, "
+            "kind and edge multiset (C03_traversal_arcs_depend_on_edge_store_only); distances also in the weaker form "
+            "'same edge-store arcs' (C03_distances_depend_on_arcs_only). Non-vacuity: a KeepLast history that replaces a "
+            "weight and a multigraph history in another insertion order (different successors_vec) give equal results "
+            "(C03_edge_store_only_nonvacuous).",
+    "note": "Axioms: none. Trusted: Coq kernel; harness + hook verif_snapshot. Premises of the consequence theorems are "
+            "those of the quoted end-to-end theorems: in weighted mode no stored weight is NaN (the property's 'uniformly "
+            "weighted'; a group mixing NaN and real weights has an order-dependent running minimum), non-negative for "
+            "distances, positive for the centralities; small_adj (< 2^31-1 adjacency entries, the i32 counter of "
+            "dijkstra.rs) for distances. With a target, WHICH other nodes single_source also reports depends on the pop "
+            "order among equal distances, hence on the history: only the reported distances and the target's entry are "
+            "functions of the edge store, and the theorem says exactly that. Eigenvector centrality (C18) and the "
+            "multi_source / all_pairs maps are not restated here (C08 proves the latter equal single_source per key). "
+            "Defect F1 (KeepFirst/KeepLast kept the minimum instead of the stored weight) was repaired by a fix: commit; "
+            "the model is the repaired code.",
+    "technique": "Coq proof: data-structure invariant by induction over histories; the algorithms' end-to-end theorems "
+                 "composed with permutation invariance of the edge-store arcs and of the definitions + correspondence via "
+                 "hook snapshot",
 }
 
 
